@@ -66,7 +66,7 @@ x P1 240107#N7 finished task
 EDIT_WORD = {"edit_N1": "#N1", "edit_N2": "#N2", "edit_N3": "#N3", "edit_N4": "#N4", "edit_N5": "#N5",
              "edit_N6": "#N6", "edit_N9": "#N9"}
 EVENTS = list(EDIT_WORD) + ["edit_bullet", "kind_N2", "prio_N2", "add_note", "edit_header",
-                            "edit_section", "edit_Q1", "swap_N1_U1", "prio_N7", "kind_N8", "R", "D"]
+                            "edit_section", "edit_Q1", "swap_N1_U1", "prio_N7", "kind_N8", "paste_Q1", "R", "D"]
 
 
 def apply_edit(zd: Path, ev: str, guards: dict) -> bool:
@@ -94,6 +94,18 @@ def apply_edit(zd: Path, ev: str, guards: dict) -> bool:
                 q.write_text(base + new_end + "\n")
                 return True
         return False
+    if ev == "paste_Q1":
+        # cut from the other page and pasted, ZID and all, directly below N1: on this page
+        # the note has no previous index state
+        q = zd / "sub/p.zo"
+        ql = q.read_text().split("\n")
+        mv = [l for l in ql if "#Q1 " in l]
+        if not mv:
+            return False
+        q.write_text("\n".join(l for l in ql if "#Q1 " not in l))
+        k = next(i for i, l in enumerate(lines) if "#N1 " in l)
+        p.write_text("\n".join(lines[:k + 1] + mv + lines[k + 1:]))
+        return True
     if ev == "swap_N1_U1":
         # cut and paste: two notes change places, their text does not change
         if guards.get("swapped", 0) >= 1:
